@@ -72,6 +72,7 @@ class ProgGen:
             p_twin=0.0,
             p_overlap=0.0,
             p_idle=0.25,
+            p_section_macro=0.25,
         )
         unknown = set(kw) - set(p)
         if unknown:
@@ -529,6 +530,8 @@ class ExecGen(ProgGen):
         self.used.update(["prepare_all", "measure_all"])
         self.macro_info = {}  # name -> (nq params, n float params)
         self.index_macros = {}  # name -> (register-like name, n float params)
+        self.section_macros = {}  # name -> number of parameters (first one is a qubit)
+        self.shadowed_lets = set()  # let names that an earlier macro uses as a parameter name
 
     def gen_index_macro(self):
         """Macro whose integer parameter indexes a register or alias: `macro pick k t { Rx reg[k] t }`."""
@@ -615,16 +618,60 @@ class ExecGen(ProgGen):
                     if depth < 2 and r < 0.15 and len(avail) > 1:
                         items.append(mblock("parallel_block", avail, depth + 1))
                     elif depth < 2 and r < 0.3:
-                        items.append(("loop", rng.choice([0, 1, 2]), mblock("sequential_block", avail, depth + 1)))
+                        items.append(("loop", self.hostile_count(shadow), mblock("sequential_block", avail, depth + 1)))
                     else:
                         items.append(mgate(avail)[0])
             return (kind,) + tuple(items)
 
         kind = "parallel_block" if (nqp > 1 and rng.random() < 0.2) else "sequential_block"
         body = mblock(kind, qparams, 0)
+        self.shadowed_lets |= shadow & set(self.lets)
         self.macro_info[name] = (nqp, nfp)
         self.macros[name] = ["q"] * nqp + ["num"] * nfp
         return ("macro", name) + tuple(names) + (body,)
+
+    def hostile_count(self, shadow):
+        """Loop count for a macro body: prefer a let that an *earlier* macro shadows with a parameter
+        (but this macro does not), so that per-macro bookkeeping of names is exercised."""
+        rng = self.rng
+        c = [n for n in self.shadowed_lets if n in self.int_lets and n not in shadow and self.lets[n] <= 3]
+        if c and rng.random() < 0.6:
+            return rng.choice(c)
+        cnt = self.count()
+        if isinstance(cnt, str) and cnt in shadow:
+            cnt = self.lets[cnt]
+        return cnt
+
+    def gen_section_macro(self):
+        """Macro holding whole prepare/measure sections (possibly in loops with let-valued counts);
+        its parameters may shadow lets.  Callable only where a section may stand."""
+        rng = self.rng
+        name = self.fresh(MACRO_NAMES, "sm")
+        pool = list(PARAM_NAMES)
+        if rng.random() < max(self.p["p_shadow"], 0.5):
+            pool = [n for n in list(self.lets) if "." not in n] + pool
+        qp = rng.choice(pool[:4] if rng.random() < 0.7 else pool)
+        extra = [n for n in pool if n != qp]
+        params = [qp] + ([rng.choice(extra)] if (extra and rng.random() < 0.4) else [])
+        shadow = set(params)
+
+        def sec():
+            g = [("gate", rng.choice(["X", "H", "S"]), qp) for _ in range(rng.randint(0, 2))]
+            if rng.random() < 0.6:
+                return [("subcircuit_block", "") + tuple(g)]
+            return [("gate", "prepare_all")] + g + [("gate", "measure_all")]
+
+        items = []
+        for _ in range(rng.randint(1, 2)):
+            if rng.random() < 0.6:
+                cnt = self.hostile_count(shadow)
+                items.append(("loop", cnt, ("sequential_block",) + tuple(sec())))
+            else:
+                items.extend(sec())
+        self.shadowed_lets |= shadow & set(self.lets)
+        self.section_macros[name] = len(params)
+        self.macros[name] = ["q"] + ["num"] * (len(params) - 1)
+        return ("macro", name) + tuple(params) + (("sequential_block",) + tuple(items),)
 
     def _angle_not(self, shadow):
         a = self.angle_native()
@@ -719,6 +766,10 @@ class ExecGen(ProgGen):
             elif depth < self.p["max_depth"] and r < 0.4 and depth == 0:
                 inner = self.sections(depth + 1, rng.randint(1, 2))
                 out.append(("sequential_block",) + tuple(inner))
+            elif self.section_macros and r < 0.55:
+                m = rng.choice(list(self.section_macros))
+                args = [self.qref_for(rng.choice(self.all_phys()))] + [self.angle_native() for _ in range(self.section_macros[m] - 1)]
+                out.append(("gate", m) + tuple(args))
             else:
                 out.extend(self.section(depth))
         return out
@@ -730,6 +781,6 @@ class ExecGen(ProgGen):
         body = []
         if self.p["allow_macros"]:
             for _ in range(self.rint(self.p["n_macros"])):
-                body.append(self.gen_exec_macro())
+                body.append(self.gen_section_macro() if (self.p["allow_sub"] and rng.random() < self.p["p_section_macro"]) else self.gen_exec_macro())
         body.extend(self.sections(0, self.rint(self.p["body_len"])))
         return ("circuit",) + tuple(out) + tuple(body)
